@@ -273,6 +273,22 @@ def wl_patterns(ctx, rng, i):
     printed = judge_text(ctx, text, norm, "2.1", "text", w)
     if len(feats) > 3:
         ctx.nontrivial(P.jsonable(norm))
+    # histories: the same text is used for an equivalence check (which normalises the trees it builds) and is then
+    # converted again -- earlier uses of a pattern text must not leak into a later parse-and-print
+    if i % 3 == 0 and not has_exists(norm):
+        try:
+            from stix2.equivalence.pattern import equivalent_patterns, find_equivalent_patterns
+            with warnings.catch_warnings():
+                warnings.simplefilter("ignore")
+                equivalent_patterns(text, text)
+                if printed:
+                    list(find_equivalent_patterns(printed, [text, printed]))
+            ctx.count("equivalence_interleavings")
+        except Exception:
+            pass
+        judge_text(ctx, text, norm, "2.1", "text-after-equivalence-check", w)
+        if printed:
+            judge_text(ctx, printed, norm, "2.1", "printed-text-after-equivalence-check", w)
     # programmatic assembly
     try:
         with warnings.catch_warnings():
@@ -346,6 +362,8 @@ def floors(m, tier):
     out = []
     if c.get("patterns", 0) < 1000:
         out.append("fewer than 1000 patterns judged")
+    if c.get("equivalence_interleavings", 0) < 200:
+        out.append("fewer than 200 conversions repeated after an equivalence check")
     if c.get("assembled", 0) < 500:
         out.append("fewer than 500 patterns assembled from the model classes")
     low = [f for f in NEEDED if c.get("feature:" + f, 0) < 20]
